@@ -115,6 +115,11 @@ def call_func(ex, name, args, kwargs, e):
         ex.assume(st.t("ch.nameplates").none(lambda r: r.mailbox_id == g))
         ex.oracles.append(("generate_mailbox_id", g))
         return VZ(g, "str")
+    if name == "dict_to_bytes":
+        from . import callbacks
+        if isinstance(args[0], callbacks.VFrameMap):
+            return callbacks.VFrame(args[0].t)
+        return callbacks.dict_to_bytes(ex, args[0], e)
     if name == "type":
         return VConst(("type", kind_of(args[0])))
     if name == "len":
